@@ -49,6 +49,9 @@ func runPyro(c *PyroCase) (int, []byte) {
 }
 
 func checkPyro(c *PyroCase, code int, body []byte) *Bad {
+	if b := rawUTF8("pyro_select_series", body); b != nil {
+		return b
+	}
 	p := "pyro_select_series"
 	if code != 200 {
 		return bad(p+"_status", "HTTP %d: %s", code, snippet(body))
